@@ -56,6 +56,12 @@ CLAIMED = {
         text="Kinematics.tla states gamma, beta_tau, shower energy, decay length, exponential law and decay altitude with constants written in the specification; MCKinematics checks ranges and monotonicity on a lattice including u=1 and u=5e-324; TauAboveMass shows gamma>=1 for every reachable tau energy of every table node and interpolation cell. Recorded events (four shower fractions, energies 1e6..1e12 GeV, beta in [0,42 deg], boundary u) are checked per formula at 1e-12/1e-9, plus monotonicity pairs and explicit-u vs internal generator.",
         note="Assumes: Earth radius is a parameter taken from astropy.constants.R_earth (the property fixes only that one sphere is used).",
         design="4/C07"),
+    "C18": dict(
+        category="model_checking",
+        technique="TLA+ specs GridFile.tla (file = register, model-checked), GridInterp.tla and TauTables.tla soundness predicates evaluated by TLC on all nodes of the six shipped tables; NssGrid write/read, grid_slice_interp and vec_1d_interp events validated by TraceGrid.tla",
+        text="GridFile.tla gives files register semantics (a read returns the last write, all of it), model-checked with overwrites; the trace spec applies it to NssGrid.write/read in HDF5 and FITS over grids of 1-4 dimensions, extents 1-3, dtypes f8/f4/i4/i8, ASCII/Unicode names (bitwise comparison of data, axes, names, shape). Slices at nodes, midpoints and thirds (by index and by name) are recomputed by TLC as the stored sub-grid / linear blend; vec_1d_interp rows with plateaus are compared with ordinary piecewise-linear interpolation; AxesSound, RowsSound (0..1 within 1e-15), PexitSound and TauAboveMass are evaluated by TLC over every node and cell of nu2tau_cdf/pexit.1-3.",
+        note="Assumes: FITS big-endian arrays compared by value; non-ASCII axis names are outside the FITS half of the quantifier; byte-level formats are not modelled (API-level Read o Write).",
+        design="4/C18"),
 }
 
 NOT_BUILT_REASON = "not claimed yet: its specification module and binding are not finished in this tree (see DESIGN.md section 9 build order); no other technique is substituted"
